@@ -249,7 +249,12 @@ class Unit:
             inner = self.copy_fn(t[1]) if is_owning(t[1], recs) else None
             body = ['  %s r = vec_%s_copy_shallow(s);' % (ct, tag(t[1]))]
             if inner:
+                body.append('#if defined(VERIF_CBMC) && defined(VERIF_ABSTRACT)')
+                body.append('  /* every element is deep-copied: stated for the arbitrary ghost position verif_g */')
+                body.append('  if (verif_g < s->size) r.data[verif_g] = %s(&s->data[verif_g]);' % inner)
+                body.append('#else')
                 body.append('  for (size_t i = 0; i < s->size; ++i) VERIF_MODEL_LOOP r.data[i] = %s(&s->data[i]);' % inner)
+                body.append('#endif')
             body.append('  return r;')
         elif k == 'str':
             self.need_model('str')
